@@ -539,6 +539,7 @@ func decodeSeq(idx, length int) []Setting {
 func runC19(c *Cfg) {
 	runSpecial(c, "C19", "fallback-set-twice")
 	runSpecial(c, "C19", "typed-nil-exec-error")
+	runSpecial(c, "C19", "negative-wait-after-positive")
 	if RaceEnabled {
 		// the construction routes under the race detector: the option form and the builder form of every function
 		// setter install equivalent, equally goroutine-safe wrappers (concurrent batches call them from c workers)
